@@ -36,9 +36,15 @@ func parse(b []byte, callback func([]byte)) error {
 			quote = !quote
 
 		case open:
+			if quote {
+				continue
+			}
 			brace++
 
 		case close:
+			if quote {
+				continue
+			}
 			brace--
 			if brace == 0 {
 				json := make([]byte, i-last+1)
